@@ -6,6 +6,9 @@ import P0f.Model.WMult
 -/
 namespace P0f
 
+/-- closing tactic for the Boolean / arithmetic residue of a bridging goal -/
+macro "gen_finish" : tactic => `(tactic| first | rfl | (simp; done) | grind | (simp <;> grind) | (simp at * <;> omega))
+
 @[simp] theorem natCast_bne_zero (n : Nat) : (((n : Nat) : Int) != 0) = (n != 0) := by
   cases h : (n != 0) <;> simp_all
 @[simp] theorem natCast_beq_cast (n k : Nat) : (((n : Nat) : Int) == ((k : Nat) : Int)) = (n == k) := by
